@@ -12,7 +12,7 @@ import XlModel.Generated.FactsC17
 no theme index).
 
 `Impl` part 2 (grid): `prepareSheetXML`, `fillColumns`, `makeContiguousColumns`,
-`prepareCellStyle`, `GetCellStyle`, `SetCellStyle`, `SetRowStyle`, `SetColStyle`/`setColStyle`/
+`prepareCellStyle`, `GetCellStyle` (`getCell`, read-only), `SetCellStyle`, `SetRowStyle`, `SetColStyle`/`setColStyle`/
 `flatCols`, `GetColStyle`, the `c.S = prepareCellStyle(..)` step of every cell setter.
 
 `Spec`: `normalize` (what `GetStyle (NewStyle s)` must be) and the three total maps
@@ -700,10 +700,10 @@ def cellS (g : Grid) (col row : Nat) : Nat :=
   | some r => (r.cells[col - 1]?).getD 0
   | none => 0
 
-/-- styles.go `GetCellStyle` (valid coordinates, `col,row ≥ 1`): grows the grid, then resolves -/
-def getCellStyle (g : Grid) (col row : Nat) : Grid × Nat :=
-  let g' := prepareSheetXML g col row
-  (g', prepareCellStyle g' col row (cellS g' col row))
+/-- styles.go `GetCellStyle` (valid coordinates, `col,row ≥ 1`): read-only — `getCell` returns the
+stored cell or nil (style 0) without creating rows or cells, then `prepareCellStyle` resolves -/
+def getCellStyle (g : Grid) (col row : Nat) : Nat :=
+  prepareCellStyle g col row (cellS g col row)
 
 /-- the style step of every cell setter: `prepareCell` then `c.S = prepareCellStyle(col,row,c.S)` -/
 def writeCell (g : Grid) (col row : Nat) : Grid :=
